@@ -748,6 +748,57 @@ pub fn literal_slot(kinds: &[Kind]) -> Vec<T> {
     out
 }
 
+/// Trees whose printed text contains string literals made of the language's own punctuation, placed so
+/// that a printer (or a driver) that inspects printed text instead of the tree is misled: a binary
+/// operation of two groups, each holding such a string, under every wrapper that needs the operand
+/// parenthesised.
+pub fn punctuation_string_trees(thorough: bool) -> Vec<T> {
+    let pairs: Vec<(&str, &str)> = vec![
+        ("(", ")"), (")", "("), ("[", "]"), ("]", "["), ("{", "}"), ("}", "{"), ("\"", "\""), ("'", "'"), ("//", "x"), (",", ","), ("=>", "=>"), ("-", "-"), ("((", "))"),
+    ];
+    let group = |variant: usize, s: &str| -> T {
+        let st = T::Str(s.to_string());
+        match variant {
+            0 => T::bin(BinaryOp::Add, T::call(T::id("len"), vec![st]), T::num(1.0)),
+            1 => T::call(T::id("f"), vec![st]),
+            2 => T::bin(BinaryOp::Add, st, T::id("a")),
+            3 => T::List(vec![st]),
+            _ => T::Rec(vec![RE::Kv("k".into(), st)]),
+        }
+    };
+    let wrap = |w: usize, base: T| -> T {
+        match w {
+            0 => T::Fact(Box::new(base)),
+            1 => T::Index(Box::new(base), Box::new(T::num(0.0))),
+            2 => T::Field(Box::new(base), "k".into()),
+            3 => T::call(base, vec![T::num(1.0)]),
+            4 => T::Neg(Box::new(base)),
+            5 => T::NotW(Box::new(base)),
+            6 => T::bin(BinaryOp::Power, base, T::num(2.0)),
+            7 => T::bin(BinaryOp::Power, T::num(2.0), base),
+            8 => T::bin(BinaryOp::Multiply, base, T::id("b")),
+            9 => T::bin(BinaryOp::Subtract, T::id("b"), base),
+            10 => T::List(vec![T::Spread(Box::new(base))]),
+            11 => T::Cond(Box::new(base), Box::new(T::num(1.0)), Box::new(T::num(2.0))),
+            _ => T::lam1("x", base),
+        }
+    };
+    let mut out = vec![];
+    let variants = if thorough { 5 } else { 3 };
+    for (s1, s2) in &pairs {
+        for vl in 0..variants {
+            for vr in 0..variants {
+                for op in [BinaryOp::Add, BinaryOp::Multiply] {
+                    for w in 0..13 {
+                        out.push(wrap(w, T::bin(op, group(vl, s1), group(vr, s2))));
+                    }
+                }
+            }
+        }
+    }
+    out
+}
+
 fn fits(kind: &Kind, slot: SlotKind) -> bool {
     kind.is_expr || slot == SlotKind::Spreadable
 }
